@@ -9,8 +9,8 @@ import numpy as np
 
 from . import lib
 
-SFC = ['PRSS', 'T02M', 'SHGT']
-LAY = ['TEMP', 'UWND', 'VWND']
+SFC = ['PRSS', 'T02M', 'SHGT', 'USTR']      # USTR, ABSV: variables whose unit text names a factor ('100.00 ? m/s'): values as stored
+LAY = ['TEMP', 'UWND', 'VWND', 'ABSV']
 
 
 def gen(rng, small=None, partial=False):
@@ -70,8 +70,12 @@ def _gridid(nx, ny):
     return '99'
 
 
-def _label(t, lev, key, nexp, prec, var1, gid='99'):
-    txt = t.strftime('%y%m%d%H') + '00' + '%2d' % lev + gid + key.ljust(4)
+def _label(t, lev, key, nexp, prec, var1, gid='99', blank=False):
+    stamp = t.strftime('%y%m%d%H') + '00'
+    if blank:
+        # the stamp as Fortran writes it with I2 fields: blanks, not zeros, in front of one-digit numbers
+        stamp = '%2d%2d%2d%2d%2d' % (t.year % 100, t.month, t.day, t.hour, 0)
+    txt = stamp + '%2d' % lev + gid + key.ljust(4)
     txt += '%4d' % nexp + '%14.7E' % prec + '%14.7E' % var1
     assert len(txt) == 50, txt
     return txt.encode('ascii')
@@ -107,7 +111,7 @@ def build(c):
                 rows = c['fields']['%d|%d|%s' % (ti, li, key)]
                 b, nexp, var1, ksum, un = pack_with_model(rows)
                 prec = 2.0 ** (nexp - 8) if False else 0.0
-                recs.append(_label(t, li, key, nexp, 2.0 ** nexp / 254.0, float(var1), _gridid(nx, ny)) + bytes(x for row in b for x in row))
+                recs.append(_label(t, li, key, nexp, 2.0 ** nexp / 254.0, float(var1), _gridid(nx, ny), blank=c.get('blankstamp')) + bytes(x for row in b for x in row))
                 sums[li, key] = ksum
                 meta['%d|%d|%s' % (ti, li, key)] = dict(nexp=nexp, decoded=[[str(x) for x in row] for row in un])
         lvltxt = ''
@@ -122,7 +126,7 @@ def build(c):
         hdr += ''.join([('%7.2f' % v)[:7] for v in vals])
         hdr += '%3d%3d%3d' % (nx % 1000, ny % 1000, len(c['levels'])) + ' 2' + '%4d' % lenh
         assert len(hdr) == 108
-        idx = (_label(t, 0, 'INDX', 0, 0., 0., _gridid(nx, ny)) + (hdr + lvltxt).encode('ascii'))
+        idx = (_label(t, 0, 'INDX', 0, 0., 0., _gridid(nx, ny), blank=c.get('blankstamp')) + (hdr + lvltxt).encode('ascii'))
         if len(idx) > recl:
             raise lib.HarnessError('index record does not fit: grid too small for the variable lists')
         out += idx.ljust(recl, b' ')
